@@ -52,6 +52,13 @@ def definitions(stream, n):
     mom = (w1[-1] / w1[0] - 1) if len(w1) >= 2 else Fraction(0)
     w = stream[-n:]
     sma = (sum(w) / len(w)) if w else None
+    if len(w1) > 12:
+        # long windows: exact rationals of float ratios are enormous; correctly rounded ratios and a compensated
+        # two-pass sum are accurate to ~1e-15, far inside the comparison tolerance
+        fr_ = [float(b / a) - 1.0 for a, b in zip(w1, w1[1:])]
+        m = math.fsum(fr_) / len(fr_)
+        var = Fraction(math.fsum((r - m) ** 2 for r in fr_) / len(fr_) * 252)
+        return mom, sma, var
     rets = [b / a - 1 for a, b in zip(w1, w1[1:])]
     if rets:
         m = sum(rets) / len(rets)
